@@ -38,7 +38,8 @@ def families(tier, seed):
                 for ign in (False, True):
                     for rec in ((False, True) if (owner == 'sys' and not ign) else (False,)):
                         params = dict(graph=gs, owner=owner, self_loops=self_loops,
-                                      ignore_initial=ign, receptive=rec)
+                                      ignore_initial=ign, receptive=rec,
+                                      positional=(gi % 2 == 1 and rec != self_loops))
 
                         def run(sh=sh, params=params):
                             return harness.verify(cl.h_graph_to_logic, sh, params)
